@@ -5,56 +5,10 @@
    minimum / maximum of the operands that are numbers. *)
 Require Import ZArith List Bool Reals Lra.
 Import ListNotations.
-From GLMV Require Import SemR Expr.
+From GLMV Require Import SemR Expr SemN.
 From W Require Import Gen_C11.
 Local Open Scope R_scope.
 
-Definition nenv := kind -> Z -> Z -> option R.
-Definition lift2 (f : R -> R -> R) (a b : option R) : option R := match a, b with Some x, Some y => Some (f x y) | _, _ => None end.
-Definition fminN (a b : option R) : option R := match a, b with Some x, Some y => Some (Rmin x y) | Some x, None => Some x | None, y => y end.
-Definition fmaxN (a b : option R) : option R := match a, b with Some x, Some y => Some (Rmax x y) | Some x, None => Some x | None, y => y end.
-Fixpoint evalN (env : nenv) (e : expr) : option R :=
-  match e with
-  | V k a i => env k a i
-  | Cf _ s m e => Some (cstR s m e)
-  | Cz _ z => Some (IZR z)
-  | B FMin _ x y => fminN (evalN env x) (evalN env y)
-  | B FMax _ x y => fmaxN (evalN env x) (evalN env y)
-  | B o _ x y => lift2 (binR o) (evalN env x) (evalN env y)
-  | U o _ x => match evalN env x with Some a => Some (unR o a) | None => None end
-  | _ => None
-  end.
-Definition evalNB (env : nenv) (e : expr) : bool :=
-  match e with
-  | Cmp o _ x y => match evalN env x, evalN env y with Some a, Some b => cmpR o a b | _, _ => match o with CNe => true | _ => false end end
-  | Tst IsNan _ x => match evalN env x with None => true | Some _ => false end
-  | _ => false
-  end.
-Fixpoint evalTN (env : nenv) (t : tree) : option (list (option R)) :=
-  match t with
-  | Leaf _ o => Some (map (evalN env) o)
-  | Br c a b => if evalNB env c then evalTN env a else evalTN env b
-  | Abort _ => None
-  end.
-
-Definition a0 (env : nenv) := env F32 0%Z 0%Z.
-Definition a1 (env : nenv) := env F32 1%Z 0%Z.
-Definition a2 (env : nenv) := env F32 2%Z 0%Z.
-Definition a3 (env : nenv) := env F32 3%Z 0%Z.
-(* the specification: minimum of the operands that are numbers; NaN iff there is none *)
-Definition spec_min (l : list (option R)) : option R := fold_right fminN None l.
-Definition spec_max (l : list (option R)) : option R := fold_right fmaxN None l.
-
-Ltac evN := cbn [evalTN evalNB evalN map fminN fmaxN lift2]; unfold cmpR.
-Ltac nan_tac t := intros env; unfold t, spec_min, spec_max, a0, a1, a2, a3; cbn [fold_right]; evN;
-  destruct (env F32 0%Z 0%Z) as [x|]; destruct (env F32 1%Z 0%Z) as [y|]; try destruct (env F32 2%Z 0%Z) as [z|]; try destruct (env F32 3%Z 0%Z) as [w|]; evN;
-  unfold Rmin, Rmax;
-  repeat (match goal with
-          | |- context [Rle_dec ?a ?b] => lazymatch a with context [Rle_dec _ _] => fail | _ => lazymatch b with context [Rle_dec _ _] => fail | _ => destruct (Rle_dec a b) end end
-          | |- context [Rlt_dec ?a ?b] => destruct (Rlt_dec a b)
-          end; evN);
-  try reflexivity; try (exfalso; lra);
-  match goal with |- Some [Some ?a] = Some [Some ?b] => replace a with b by lra; reflexivity end.
 Theorem fmin2_nan : forall env, evalTN env t_fmin2 = Some [spec_min [a0 env; a1 env]]. Proof. nan_tac t_fmin2. Qed.
 Theorem fmax2_nan : forall env, evalTN env t_fmax2 = Some [spec_max [a0 env; a1 env]]. Proof. nan_tac t_fmax2. Qed.
 Theorem fmin3_nan : forall env, evalTN env t_fmin3 = Some [spec_min [a0 env; a1 env; a2 env]]. Proof. nan_tac t_fmin3. Qed.
@@ -63,16 +17,3 @@ Theorem fmin4_nan : forall env, evalTN env t_fmin4 = Some [spec_min [a0 env; a1 
 Theorem fmax4_nan : forall env, evalTN env t_fmax4 = Some [spec_max [a0 env; a1 env; a2 env; a3 env]]. Proof. nan_tac t_fmax4. Qed.
 (* fclamp(x, lo, hi) = fmin(fmax(x, lo), hi) *)
 Theorem fclamp_nan : forall env, evalTN env t_fclamp = Some [fminN (fmaxN (a0 env) (a1 env)) (a2 env)]. Proof. intros env. reflexivity. Qed.
-(* the specification is NaN only if every operand is NaN *)
-Theorem spec_min_nan l : spec_min l = None <-> Forall (fun a => a = None) l.
-Proof.
-  induction l as [|a l IH]; cbn; [split; auto|]. destruct a as [x|]; cbn.
-  - split; [destruct (fold_right fminN None l); discriminate | intros H; inversion H; discriminate].
-  - fold (spec_min l). rewrite IH. split; [intros H; constructor; auto | intros H; now inversion H].
-Qed.
-Theorem spec_max_nan l : spec_max l = None <-> Forall (fun a => a = None) l.
-Proof.
-  induction l as [|a l IH]; cbn; [split; auto|]. destruct a as [x|]; cbn.
-  - split; [destruct (fold_right fmaxN None l); discriminate | intros H; inversion H; discriminate].
-  - fold (spec_max l). rewrite IH. split; [intros H; constructor; auto | intros H; now inversion H].
-Qed.
